@@ -105,7 +105,10 @@ class Opts:
         return name
 
     def local(self, name):
-        return self.ident(self.rename.get(name, name))
+        new = self.rename.get(name, name)
+        if new[:1] in "\"`[":       # already spelled (quoted) by the caller
+            return new
+        return self.ident(new)
 
 
 def t_expr(e, o, ctes):
@@ -217,7 +220,7 @@ def to_sql(s, o=None) -> str:
 # ---------------------------------------------------------------------------
 # generators
 # ---------------------------------------------------------------------------
-TABLES = [("s1", "t1"), ("s1", "t2"), ("s2", "t3"), ("s2", "t1"), (None, "t4"), (None, "t5")]
+TABLES = [("s1", "t1"), ("s1", "t2"), ("s2", "t3"), ("s2", "t1"), (None, "t4"), (None, "t5"), ("db1.s4", "t6")]
 TARGETS = [("s3", "out1"), (None, "out2")]
 COLS = ["k", "x", "y", "z"]
 ALIASES = ["p", "q", "r", "u", "v", "w"] + ["a%d" % i for i in range(1, 40)]
